@@ -298,11 +298,26 @@ func hook(c rescorr.Case, ms *yang.Modules, errs []error, out *rescorr.GoOut) {
 		for x := n.e; x != nil && x.Parent != nil; x = x.Parent {
 			names = append([]string{x.Name}, names...)
 		}
+		goCtx := "?" // what Go itself uses: RootNode(e.Node)
+		if n.e.Node != nil {
+			if cm := yang.RootNode(n.e.Node); cm != nil {
+				goCtx = treeRef(cm)
+			}
+		}
 		out.Extra["own"] = append(out.Extra["own"], w.trees[n.tree].ref+"|"+encSteps(n.steps)+"|"+
-			lib.HexS(absPath(w.trees[n.tree].mod.GetPrefix(), names, 0)))
+			lib.HexS(absPath(w.trees[n.tree].mod.GetPrefix(), names, 0))+"|"+goCtx)
 	}
 
+	// ctxOf: the module whose prefix and import statements give a start node's prefixes their
+	// meaning: the module the node's statement was written in. The runner does not take Go's word for
+	// it where it can tell otherwise: an implied case (made by FixChoice, no statement of its own)
+	// belongs where the node it wraps was written — that is what the model says (wrapCases:
+	// nodeMod of the wrapped node), and the per-node context Go reports is compared with the
+	// model's for every node (own records below).
 	ctxOf := func(n *node) *yang.Module {
+		if w := wrappedBy(n.e); w != nil && w.Node != nil {
+			return yang.RootNode(w.Node)
+		}
 		if n.e.Node == nil {
 			return nil
 		}
@@ -588,6 +603,20 @@ func hook(c rescorr.Case, ms *yang.Modules, errs []error, out *rescorr.GoOut) {
 	out.Extra["n"] = []string{strconv.Itoa(N), strconv.Itoa(nReadOnly), strconv.Itoa(late)}
 }
 
+// wrappedBy returns the node an implied case wraps (nil when e is not an implied case): FixChoice
+// gives the case the name and the source statement of the one node it holds.
+func wrappedBy(e *yang.Entry) *yang.Entry {
+	if e.Kind != yang.CaseEntry || len(e.Dir) != 1 {
+		return nil
+	}
+	c := e.Dir[e.Name]
+	cn, ok := e.Node.(*yang.Case)
+	if c == nil || !ok || c.Node == nil || c.Kind == yang.CaseEntry || cn.Source == nil || cn.Source != c.Node.Statement() {
+		return nil
+	}
+	return c
+}
+
 // ancestor walks k parents up.
 func ancestor(e *yang.Entry, k int) *yang.Entry {
 	for ; k > 0 && e != nil; k-- {
@@ -655,6 +684,13 @@ func readableQuery(q string) string {
 		return q
 	}
 	return fmt.Sprintf("start %s ctx %s Find(%q)", strings.TrimSuffix(readableLoc(f[0]+"/"+f[1]+"/-"), " Path()= "), unhex(f[2][1:]), unhex(f[3]))
+}
+
+func refName(r string) string {
+	if len(r) < 2 {
+		return r
+	}
+	return unhex(r[1:]) + "(" + r[:1] + ")"
 }
 
 func stripCounts(a string) string {
@@ -821,10 +857,12 @@ func judge(w worked, res *lib.Result, t *tally, verbose bool) (bad bool) {
 	// the specification's absPath of every node against the Go-side reading (Parent chain, Name)
 	if strings.HasPrefix(w.paths, "ok ") {
 		spec := map[string]string{}
+		specCtx := map[string]string{}
 		for _, r := range strings.Fields(w.paths)[2:] {
 			f := strings.Split(r, "|")
-			if len(f) == 4 {
+			if len(f) == 5 {
 				spec[f[0]+"|"+f[1]] = f[2]
+				specCtx[f[0]+"|"+f[1]] = f[4]
 			}
 		}
 		own := w.g.Extra["own"]
@@ -834,6 +872,16 @@ func judge(w worked, res *lib.Result, t *tally, verbose bool) (bad bool) {
 			if s, ok := spec[f[0]+"|"+f[1]]; !ok || s != f[2] {
 				miss = fmt.Sprintf("node %s: Go reads its path as %q, the specification as %q", readableLoc(f[0]+"/"+f[1]+"/-"), unhex(f[2]), unhex(s))
 				break
+			}
+		}
+		if miss == "" {
+			for _, r := range own {
+				f := strings.Split(r, "|")
+				if mc := specCtx[f[0]+"|"+f[1]]; len(f) == 4 && mc != f[3] {
+					miss = fmt.Sprintf("node %s: Go takes its prefixes from module %s (RootNode(e.Node)), the model from %s",
+						readableLoc(f[0]+"/"+f[1]+"/-"), refName(f[3]), refName(mc))
+					break
+				}
 			}
 		}
 		if miss == "" && len(spec) != len(own) {
